@@ -9,8 +9,10 @@ FUNCTIONS = CLIENT_START + SERVER_START + SERVER_ANSWER + SEGMENTS[1:] + [
     "bacpypes.app:DeviceInfoCache.iam_device_info", P + "ClientSSM.__init__", P + "ServerSSM.__init__"]
 LEMMAS = []
 MIN_OBLIGATIONS = 80
-BOUNDED = None
+BOUNDED = "bounded.c12"
 ASSUMPTIONS = SSM_ASSUMPTIONS + [
+    "whole-system complement: two real stacks (bounded stage): capability pairs x lengths around every boundary, max-segments on both sides, windows up to 127, stale device information, every frame length checked against the receiver's limit",
+] + [
     "peer capabilities at the client come from the DeviceInfo record the transaction holds (max APDU 50 / 1024 / unknown, max NPDU 50 / 1497 / unknown, the four segmentation values, max segments 2..1000 / unknown); that record is the one DeviceInfoCache.iam_device_info builds from the peer's I-Am and the transaction's constructor looks up by address (both under contract); inside the state-machine units DeviceInfoCache.acquire / release / update_device_info are ghost-traced externals",
 ]
 NOT_DECIDED = [
